@@ -68,6 +68,16 @@ def ctGetAttr (ty : TermType) (a : Attr) : Except CErr TermType :=
     | none => .error .noSuchAttr
   | _ => .error .typeError
 
+/-- the check of `compile_like` -/
+def ctLike : TermType → Except CErr TermType
+  | .string => .ok (.option .bool)
+  | _ => .error .typeError
+
+/-- the check of `compile_is` -/
+def ctIs : TermType → Except CErr TermType
+  | .entity _ => .ok (.option .bool)
+  | _ => .error .typeError
+
 /-- the guard of `if / && / ||` is the constant boolean `b` -/
 def guardConst : Result Value → Option Bool
   | .ok (.prim (.bool b)) => some b
@@ -144,6 +154,14 @@ def ctype (req : Request) (es : Entities) (senv : SlotEnv) (env : SymEnvLit) : E
     match ctype req es senv env a with
     | .error e => .error e
     | .ok ta => tyMap optTy (ctGetAttr (getOpt ta) attr)
+  | .like a _ =>
+    match ctype req es senv env a with
+    | .error e => .error e
+    | .ok ta => tyMap optTy (ctLike (getOpt ta))
+  | .is a _ =>
+    match ctype req es senv env a with
+    | .error e => .error e
+    | .ok ta => tyMap optTy (ctIs (getOpt ta))
   | _ => .error .outside
 
 /-! ### types of the factory's results -/
@@ -426,6 +444,13 @@ theorem compileGetAttr_ty {x : Term} (a : Attr) : resTy (compileGetAttr x a) = c
       have := hg ty rfl
       cases ty <;> simp [TermType.isOptionType, someOf, Term.typeOf, this, optTy]
 
+theorem compileLike_ty (x : Term) (p : Pattern) : resTy (compileLike x p) = ctLike x.typeOf := by
+  have : (stringLike x p).typeOf = .bool := by unfold stringLike; split <;> rfl
+  cases hx : x.typeOf <;> simp [compileLike, ctLike, hx, resTy, someOf, Term.typeOf, this]
+
+theorem compileIs_ty (x : Term) (ety : EntityType) : resTy (compileIs x ety) = ctIs x.typeOf := by
+  cases hx : x.typeOf <;> simp [compileIs, ctIs, hx, resTy, someOf, Term.typeOf, TermPrim.typeOf]
+
 /-! ### what `Rel` (the invariant of `compile_rel2`) says about a compiled operand -/
 
 theorem Rel.opnd {ctx : List (String × Value)} {ctxT : Term} {r : Result Value} {t1 : Term} (h : Rel ctx ctxT r t1) :
@@ -601,6 +626,36 @@ theorem getAttr_ty {a : Expr} {attr : Attr} (hfa : SFrag2 a)
     | error e => simp [resTy, tyMap]
     | ok r => simp [resTy, tyMap, ifSome_typeOf hsh]
 
+theorem like_ty {a : Expr} {p : Pattern} (hfa : SFrag2 a)
+    (ih : resTy (compile (litEnv2 req etys ctxT) a) = ctype req es senv (litEnv2 req etys ctxT) a) :
+    resTy (compile (litEnv2 req etys ctxT) (.like a p)) = ctype req es senv (litEnv2 req etys ctxT) (.like a p) := by
+  simp only [compile, ctype]
+  rw [← ih]
+  cases h1 : compile (litEnv2 req etys ctxT) a with
+  | error e => simp [resTy]
+  | ok t1 =>
+    obtain ⟨hsh, _, _, _⟩ := (compile_rel2 req es senv etys ctxT hctx hfa t1 h1).opnd
+    simp only [resTy]
+    rw [← optionGet_typeOf, ← compileLike_ty _ p]
+    cases compileLike (optionGet t1) p with
+    | error e => simp [resTy, tyMap]
+    | ok r => simp [resTy, tyMap, ifSome_typeOf hsh]
+
+theorem is_ty {a : Expr} {ety : EntityType} (hfa : SFrag2 a)
+    (ih : resTy (compile (litEnv2 req etys ctxT) a) = ctype req es senv (litEnv2 req etys ctxT) a) :
+    resTy (compile (litEnv2 req etys ctxT) (.is a ety)) = ctype req es senv (litEnv2 req etys ctxT) (.is a ety) := by
+  simp only [compile, ctype]
+  rw [← ih]
+  cases h1 : compile (litEnv2 req etys ctxT) a with
+  | error e => simp [resTy]
+  | ok t1 =>
+    obtain ⟨hsh, _, _, _⟩ := (compile_rel2 req es senv etys ctxT hctx hfa t1 h1).opnd
+    simp only [resTy]
+    rw [← optionGet_typeOf, ← compileIs_ty _ ety]
+    cases compileIs (optionGet t1) ety with
+    | error e => simp [resTy, tyMap]
+    | ok r => simp [resTy, tyMap, ifSome_typeOf hsh]
+
 /-- the compiler's outcome CLASS (accepted with a term of type `ty` / `TypeError` / `NoSuchAttribute` / outside the
     model) is exactly what its typing discipline `ctype` says -/
 theorem ctype_spec {e : Expr} (hf : SFrag2 e) :
@@ -673,6 +728,8 @@ theorem ctype_spec {e : Expr} (hf : SFrag2 e) :
   | mul h1 h2 iha ihb => exact binary_ty req es senv etys ctxT hctx h1 h2 iha ihb
   | getAttr attr h ih => exact getAttr_ty req es senv etys ctxT hctx h ih
   | hasAttr attr h ih => exact hasAttr_ty req es senv etys ctxT hctx h ih
+  | like p h ih => exact like_ty req es senv etys ctxT hctx h ih
+  | is ety h ih => exact is_ty req es senv etys ctxT hctx h ih
 
 end
 
